@@ -218,7 +218,8 @@ def handlePush (left : Bool) (_c : Ctx) (cmd : List Bytes) : Prog Res :=
     if !(ex.headD false) then
       if n == b "lpushx" && left then .ret (.err (b "LPUSHX command on non-existent key"))
       else if n == b "rpushx" && !left then .ret (.err (b "RPUSHX command on non-existent key"))
-      else setOrErr [(key, .list [])] tail
+      -- :405 / :446 the list does not exist yet: it is stored with ONE SetValues call (repaired upstream)
+      else setOrErr [(key, .list elems)] (.ret (.ok (intReply elems.length)))
     else tail
   | _ => .ret (.err wrongArgs)
 
